@@ -405,6 +405,7 @@ func init() {
 		}
 		x.everyCodePoint()
 		x.orbitPairs()
+		x.offsetNeighboursRune()
 		x.strayTails(func(s []byte, r rune) {
 			for _, q := range []rune{r, unicode.SimpleFold(r)} {
 				x.eval(&Case{Fn: "IndexRune", S: s, R: int64(q)}, false)
@@ -706,6 +707,42 @@ func (x *Ctx) offsetNeighbours(fns []string) {
 		}
 	}
 	x.note("offset neighbours: %d pairs of code points", n)
+}
+
+// offsetNeighboursRune: the same sweep for the single-character searches — the code point at a usual case-pair distance
+// from r, alone and in front of a real occurrence of r, searched for through IndexRune / ContainsRune and through the
+// one-code-point needles of Index, LastIndex, IndexAny, LastIndexAny and Count
+func (x *Ctx) offsetNeighboursRune() {
+	deltas := []rune{1, 2, 8, 16, 26, 32, 38, 40, 48, 64, 80, 96, 116, 128, 7264}
+	top := rune(0x3000)
+	if x.tier == "thorough" {
+		top = 0x1FFFF
+	}
+	n := 0
+	for r := rune(0x80); r <= top; r++ {
+		if !utf8.ValidRune(r) {
+			continue
+		}
+		for _, d := range deltas {
+			for _, q := range []rune{r + d, r - d} {
+				if q < 0x80 || !utf8.ValidRune(q) {
+					continue
+				}
+				s1 := []byte(string(q))
+				s2 := []byte("a" + string(q) + "b" + string(r) + "c")
+				x.eval(&Case{Fn: "IndexRune", S: s1, R: int64(r)}, false)
+				x.eval(&Case{Fn: "IndexRune", S: s2, R: int64(r)}, false)
+				if n%16 == 0 {
+					x.eval(&Case{Fn: "ContainsRune", S: s1, R: int64(r)}, false)
+					for _, fn := range []string{"Index", "LastIndex", "IndexAny", "LastIndexAny", "Count"} {
+						x.eval(&Case{Fn: fn, S: s2, T: []byte(string(r))}, false)
+					}
+				}
+				n++
+			}
+		}
+	}
+	x.note("offset neighbours of every code point, single-character searches: %d pairs", n)
 }
 
 // orbitPairs: for every folding orbit with more than one member, every ordered pair (a, b) of its
